@@ -138,6 +138,9 @@ type SetCase struct {
 	Filters []string `json:"filters"`
 	Via     string   `json:"via"`              // "tree" | "state"
 	Topics  []string `json:"topics,omitempty"` // empty = the whole universe
+	// Removed (via "state" only): filters that were subscribed and unsubscribed again before the
+	// queries — they must make no difference, however many there are
+	Removed []string `json:"removed,omitempty"`
 }
 
 func runSet(c SetCase) (string, bool) {
@@ -168,6 +171,12 @@ func runSet(c SetCase) (string, bool) {
 		for i, f := range c.Filters {
 			dst.SetNow(int64(1000 + i))
 			n.State.Subscriptions().Create(fmt.Sprintf("s%d", i), []byte("mp/"+f), int32(i%3))
+		}
+		for i, f := range c.Removed {
+			dst.SetNow(int64(100000 + 2*i))
+			n.State.Subscriptions().Create(fmt.Sprintf("r%d", i), []byte("mp/"+f), 0)
+			dst.SetNow(int64(100001 + 2*i))
+			n.State.Subscriptions().Delete(fmt.Sprintf("r%d", i), []byte("mp/"+f))
 		}
 		hits = func(topic string) []string {
 			var out []string
@@ -465,4 +474,48 @@ func TestHistories(t *testing.T) {
 			ev.Fail(t, "sub-history", c, "%s", m)
 		}
 	})
+}
+
+// TestWide: wide levels. A level of the filter tree with tens or hundreds of distinct children
+// (device ids) next to a '+' and a literal child that both lead on to a match; the siblings
+// are active subscriptions or subscriptions that were removed again. The answer for a topic
+// must still be the union of the single answers.
+func TestWide(t *testing.T) {
+	core := []string{"w/+/t", "w/7/t", "w/+/+", "w/7/#", "w/#", "+/7/t", "w/+", "w/7", "w/7/+", "w/+/#", "#", "+/+/t"}
+	rapid.Check(t, func(t *rapid.T) {
+		c := SetCase{Via: rapid.SampledFrom([]string{"tree", "state", "state"}).Draw(t, "via")}
+		n := rapid.IntRange(2, 6).Draw(t, "ncore")
+		seen := map[string]bool{}
+		for i := 0; i < n; i++ {
+			f := rapid.SampledFrom(core).Draw(t, "core")
+			if !seen[f] {
+				seen[f] = true
+				c.Filters = append(c.Filters, f)
+			}
+		}
+		width := rapid.SampledFrom([]int{8, 31, 32, 33, 40, 64, 65, 100, 300, 1100}).Draw(t, "width")
+		removed := c.Via == "state" && rapid.Bool().Draw(t, "siblingsRemoved")
+		shape := rapid.SampledFrom([]string{"w/s%d/x", "w/s%d", "w/s%d/t", "s%d/7/t"}).Draw(t, "shape")
+		for i := 0; i < width; i++ {
+			f := fmt.Sprintf(shape, i)
+			if removed {
+				c.Removed = append(c.Removed, f)
+			} else {
+				c.Filters = append(c.Filters, f)
+			}
+		}
+		c.Topics = []string{"w/7/t", "w/7", "w/7/t/u", "w/s3/x", "w/s3/t", "w/s3", "w/8/t", fmt.Sprintf("w/s%d/x", width-1), "x/7/t", "s3/7/t", "w", "w/7/x"}
+		m, _ := runSet(c)
+		ev.CaseKey(width > 32, fmt.Sprint(c.Via, c.Filters[:min(len(c.Filters), 8)], width, removed, shape), func() interface{} { return c }, "wide", "via:"+c.Via)
+		if m != "" {
+			ev.Fail(t, "filter-set", c, "%s", m)
+		}
+	})
+}
+
+func min(a, b int) int {
+	if a < b {
+		return a
+	}
+	return b
 }
